@@ -226,4 +226,79 @@ theorem apply_N (y n secs : Int) (hy1 : 2 ≤ y) (hy2 : y ≤ 9998) (hn1 : 0 ≤
   cases hl : Cal.isLeap y <;> simp <;> (repeat' split) <;> omega
 
 
+/-! ### the tokenizer -/
+
+
+theorem tokensAux_flatten (cs : List Char) (st : Option (CK × List Char)) (acc : List String) :
+    ((tokensAux cs st acc).map String.toList).flatten =
+      ((acc.reverse.map String.toList).flatten ++ (match st with | some (_, cur) => cur.reverse | none => []) ++ cs) := by
+  induction cs generalizing st acc with
+  | nil =>
+    cases st with
+    | none => simp [tokensAux]
+    | some p => obtain ⟨k, cur⟩ := p; simp [tokensAux]
+  | cons c cs ih =>
+    cases st with
+    | none => simp [tokensAux, ih]
+    | some p =>
+      obtain ⟨k, cur⟩ := p
+      simp only [tokensAux]
+      split
+      · rw [ih]; simp
+      · rw [ih]; simp
+
+/-- the tokenizer loses nothing: the tokens concatenate back to the input -/
+theorem tokens_flatten (s : String) : ((tokens s).map String.toList).flatten = s.toList := by
+  unfold tokens
+  rw [tokensAux_flatten]
+  simp
+
+theorem tokensAux_nonempty (cs : List Char) (st : Option (CK × List Char)) (acc : List String)
+    (hacc : ∀ t ∈ acc, t ≠ "") (hst : ∀ k cur, st = some (k, cur) → cur ≠ []) :
+    ∀ t ∈ tokensAux cs st acc, t ≠ "" := by
+  induction cs generalizing st acc with
+  | nil =>
+    cases st with
+    | none => simpa [tokensAux] using hacc
+    | some p =>
+      obtain ⟨k, cur⟩ := p
+      have hc := hst k cur rfl
+      intro t ht
+      simp only [tokensAux, List.mem_reverse, List.mem_cons] at ht
+      rcases ht with h | h
+      · subst h
+        intro he
+        have : (String.ofList cur.reverse).toList = [] := by rw [he]; rfl
+        simp at this
+        exact hc this
+      · exact hacc t h
+  | cons c cs ih =>
+    cases st with
+    | none =>
+      simp only [tokensAux]
+      exact ih _ _ hacc (by intro k cur h; cases h; simp)
+    | some p =>
+      obtain ⟨k, cur⟩ := p
+      have hc := hst k cur rfl
+      simp only [tokensAux]
+      split
+      · exact ih _ _ hacc (by intro k' cur' h; cases h; simp)
+      · apply ih
+        · intro t ht
+          simp only [List.mem_cons] at ht
+          rcases ht with h | h
+          · subst h
+            intro he
+            have : (String.ofList cur.reverse).toList = [] := by rw [he]; rfl
+            simp at this
+            exact hc this
+          · exact hacc t h
+        · intro k' cur' h; cases h; simp
+
+/-- no token is empty (the `if x` filter of the list comprehension) -/
+theorem tokens_nonempty (s : String) : ∀ t ∈ tokens s, t ≠ "" := by
+  unfold tokens
+  exact tokensAux_nonempty _ _ _ (by simp) (by simp)
+
+
 end TzStr
